@@ -19,7 +19,7 @@ end
 
 def Node.eraseNs : Node → Node
   | .element m a _ d xt xn => .element m a [] d xt xn
-  | .primitive pm v _ => .primitive pm v []
+  | .primitive pm v _ nil => .primitive pm v [] nil
   | .standard v dt _ nl d mx => .standard v dt [] nl d mx
   | .wildcard v a _ => .wildcard v a []
   | .skip => .skip
@@ -56,7 +56,7 @@ def ctxNoQ (Γ : Ctx) : Bool := Γ.classes.all fun ci => ci.metas.all fun pm => 
 
 def nodeOk : Node → Bool
   | .element m a n _ _ _ => metaNoQ m && attrsStable a n
-  | .primitive _ v _ => varNoQ v
+  | .primitive _ v _ _ => varNoQ v
   | .standard _ dt _ _ _ _ => dt ≠ .qname
   | .wildcard _ a n => attrsStable a n
   | .skip => true
@@ -485,10 +485,10 @@ theorem parseNode_eraseNs (e : BEnv) (Γ : Ctx) (cfg : ParserConfig) (hΓ : ctxN
   case skip => intros; simp [parseNode, Node.eraseNs, eraseNs]
   case wrapper => intros; simp [parseNode, Node.eraseNs, eraseNs]
   case prim1 =>
-    intro q a n t c tl pm var ns hc _ _
+    intro q a n t c tl pm var ns nil hc _ _
     simp only [parseNode, Node.eraseNs, eraseNs, eraseNsL_isEmpty, hc, if_true]
   case prim2 =>
-    intro q a n t c tl pm var ns hc hn _
+    intro q a n t c tl pm var ns nil hc hn _
     have hv : varNoQ var = true := by simpa [nodeOk] using hn
     have hp := parseVar_ns e cfg var.toVarCore t ns [] none (by simpa using varNoQ_types var hv)
     simp only [parseNode, Node.eraseNs, eraseNs, eraseNsL_isEmpty, hc, hp]
